@@ -141,6 +141,31 @@ func genNow(t *rapid.T, l Layout) int64 {
 	if lo < 100 {
 		lo = 100
 	}
+	return snapNow(t, l, genNowRaw(t, l, lo, hi), lo, hi)
+}
+
+// snapNow moves a drawn clock value, in a third of the cases, onto (or one second beside) a multiple of some
+// archive's step or retention: exact coincidences of the clock with the boundaries of a COARSE archive are rare
+// in a uniform draw.
+func snapNow(t *rapid.T, l Layout, now, lo, hi int64) int64 {
+	k := rapid.IntRange(0, 5).Draw(t, "snapNow")
+	if k > 1 {
+		return now
+	}
+	a := l.Archives[rapid.IntRange(0, len(l.Archives)-1).Draw(t, "snapArch")]
+	unit := a.Step
+	if k == 1 {
+		unit = a.Ret()
+	}
+	v := alignDown(now, unit) + rapid.SampledFrom([]int64{0, 0, -1, 1, a.Step - 1}).Draw(t, "snapDelta")
+	if v < lo || v > hi {
+		return now
+	}
+	return v
+}
+
+func genNowRaw(t *rapid.T, l Layout, lo, hi int64) int64 {
+	coarse := l.Archives[len(l.Archives)-1].Step
 	switch k := rapid.IntRange(0, 19).Draw(t, "nowKind"); {
 	case k == 0:
 		return rapid.Int64Range(lo, lo+3*coarse).Draw(t, "nowLow")
@@ -169,7 +194,7 @@ func genNowRealistic(t *rapid.T, l Layout) int64 {
 	if m := l.MaxRet() + l.Archives[len(l.Archives)-1].Step + 1; a < m {
 		a = m
 	}
-	return rapid.Int64Range(a, a+400000000).Draw(t, "now")
+	return snapNow(t, l, rapid.Int64Range(a, a+400000000).Draw(t, "now"), a, a+400000000)
 }
 
 // genValue draws a finite value of either sign, weighted towards awkward ones.
